@@ -2,6 +2,7 @@ package main
 
 import (
 	"fmt"
+	"strings"
 )
 
 // paygate: the REAL swap-in responder is driven to its pay decision at chosen heights / invoice
@@ -71,7 +72,59 @@ func genPaygate(r *rng) (string, uint32, int64, int64, uint32, uint32) {
 	return chain, h0, cltv, dmsat, d1, d2
 }
 
+// payloopScn: the pay loop is entered d2 blocks after the start with every attempt failing and k blocks
+// arriving after each attempt; observed: the heights at which payment calls were made.
+func payloopScn(chain string, h0 uint32, d2, k uint32) scn {
+	cfg := defaultCfg()
+	if chain == "btc" {
+		cfg.BtcHeight = h0
+	} else {
+		cfg.LbtcHeight = h0
+	}
+	steps := []string{
+		"new inReceiver " + chain,
+		"txmsg",
+		fmt.Sprintf("blocks %s %d", chain, d2),
+		"payout fail",
+		fmt.Sprintf("payblocks %s %d", chain, k),
+		"confirm",
+	}
+	return scn{role: "inReceiver", steps: steps, cfg: &cfg, tag: fmt.Sprintf("payloop %s %d %d %d", chain, h0, d2, k)}
+}
+
+func payloopOutcome(w *World, chain string) string {
+	var hs []string
+	for _, o := range w.obs {
+		if o.Kind == "pay" && o.A["kind"] == "claim" {
+			hs = append(hs, o.A[chain])
+		}
+	}
+	if len(hs) == 0 {
+		return "none"
+	}
+	return strings.Join(hs, ",")
+}
+
 func init() {
+	slices["payloop"] = func(r *rng, n int, emit func(op, res string)) {
+		var all []scn
+		for i := 0; i < n; i++ {
+			chain := r.pickStr([]string{"btc", "lbtc"})
+			win, h0 := uint32(504), uint32(800000)
+			if chain == "lbtc" {
+				win, h0 = 60, 2000000
+			}
+			if r.intn(6) == 0 {
+				h0 = uint32(1<<32 - uint64(win) - uint64(r.intn(4)))
+			}
+			k := uint32(1 + r.intn(3))
+			d2 := win - uint32(r.intn(8)) + uint32(r.intn(3)) - 1
+			all = append(all, payloopScn(chain, h0, d2, k))
+		}
+		runMany(defaultCfg(), all, func(x scnResult) {
+			emit(x.sc.tag, payloopOutcome(x.w, strings.Fields(x.sc.tag)[1]))
+		})
+	}
 	slices["paygate"] = func(r *rng, n int, emit func(op, res string)) {
 		var all []scn
 		for i := 0; i < n; i++ {
